@@ -1,9 +1,10 @@
 #!/bin/bash
-# seed_matrix.sh [tier] — run, for every seeded mutation, the REAL check of its property (tools/check_seed.sh:
+# seed_matrix.sh [tier] [glob] — run, for every seeded mutation, the REAL check of its property (tools/check_seed.sh:
 # bin/check against a scratch copy of /repo with the patch applied; /repo is never touched). One line per seed.
 cd "$(dirname "$0")/.."
 tier=${1:-quick}
-for d in seeded/*/; do
+pat=${2:-*}
+for d in seeded/$pat/; do
   sid=$(basename $d)
   out=$(tools/check_seed.sh $sid $tier 2>&1); rc=$?
   if [ $rc -eq 1 ]; then
